@@ -10,18 +10,22 @@
 \* end of the text cuts short (nothing is delivered for it).
 EXTENDS Integers, Sequences, TLC
 
-Small == {"a", "b", "e", "n", "o", "x"}                  \* small letters (b o x e n have roles in numbers and escapes)
-Capital == {"A", "E"}
-Digit == {"0", "1", "7", "9"}
+\* ASCII in full, and the non-ASCII characters that the term universes of RoundTrip.tla use (6.5: the processor character set
+\* is implementation defined; the implementation takes Unicode lower-case / other letters as small letters, upper-case
+\* letters as capital letters and the mathematical operator blocks as graphic characters)
+Small == {"a", "b", "c", "d", "e", "f", "g", "h", "i", "j", "k", "l", "m", "n", "o", "p", "q", "r", "s", "t", "u", "v", "w", "x", "y", "z",
+          "é", "ï", "日", "本"}
+Capital == {"A", "B", "C", "D", "E", "F", "G", "H", "I", "J", "K", "L", "M", "N", "O", "P", "Q", "R", "S", "T", "U", "V", "W", "X", "Y", "Z", "Ω"}
+Digit == {"0", "1", "2", "3", "4", "5", "6", "7", "8", "9"}
 Alnum == Small \cup Capital \cup Digit \cup {"_"}
-GraphicSym == {"+", "-", ".", "/", "*", ":", "<"}           \* graphic characters; the backslash is one more in graphic tokens
+GraphicSym == {"#", "$", "&", "*", "+", "-", ".", "/", ":", "<", "=", ">", "?", "@", "^", "~", "∅", "≤", "∀", "⨁", "⊥"}   \* the backslash is one more in graphic tokens
 GraphicTok == GraphicSym \cup {"\\"}
 Solo == {"!", "(", ")", ",", ";", "[", "]", "{", "}", "|", "%"}
-Layout == {" ", "\n"}
+Layout == {" ", "\n", "\t"}
 Meta == {"\\", "'", "\"", "`"}
-SymbolicControl == {"a", "b", "n"}                        \* of a b r f t n v, the ones in the alphabet
-Octal == {"0", "1", "7"}
-Hex == Digit \cup {"a", "b", "e", "A", "E"}
+SymbolicControl == {"a", "b", "r", "f", "t", "n", "v"}
+Octal == {"0", "1", "2", "3", "4", "5", "6", "7"}
+Hex == Digit \cup {"a", "b", "c", "d", "e", "f", "A", "B", "C", "D", "E", "F"}
 Binary == {"0", "1"}
 \* 6.4.2.1: what may stand for itself between single quotes
 SingleQuotedChar == GraphicSym \cup Alnum \cup Solo \cup {" ", "\"", "`"}
